@@ -27,6 +27,9 @@ type Delivered struct {
 	// LastRoundAtCommit: the highest round the node had created when it handed
 	// this block over (-1 if unknown); filled through App.LastRound
 	LastRoundAtCommit int
+	// AckLost: the application processed the block but its answer never reached
+	// Babble (the commit call returned an error)
+	AckLost bool
 }
 
 // App is the monitored, deterministic application attached to every simulated
@@ -140,6 +143,7 @@ func (a *App) CommitHandler(block hg.Block) (proxy.CommitResponse, error) {
 	if a.LoseAck > 0 {
 		a.LoseAck--
 		a.LostAcks++
+		d.AckLost = true
 		return proxy.CommitResponse{}, fmt.Errorf("injected: acknowledgement lost")
 	}
 	// hand back a copy so that Babble cannot alias our record
